@@ -131,6 +131,7 @@ class Run:
         self.assumptions = []
         self.violations = []      # unlisted, reproduced
         self.known_hits = {}      # key -> description
+        self.known_counts = {}    # key -> number of reproduced violations attributed to it
         self.engine_errors = []
         self.known = [k for k in load_known()
                       if (k.get("property") == pid or pid in k.get("properties", [])) and k.get("status", "open") == "open"]
@@ -169,6 +170,7 @@ class Run:
                 key = k.get("id") or json.dumps(m, sort_keys=True)
                 if key not in self.known_hits:
                     self.known_hits[key] = k.get("what", what)
+                self.known_counts[key] = self.known_counts.get(key, 0) + 1
                 return "known"
         d = os.path.join(EVID, "replays", self.pid)
         os.makedirs(d, exist_ok=True)
@@ -186,6 +188,7 @@ class Run:
             cov.update(extra_cov)
         cov["solver_time_s"] = round(cov["solver_time_s"], 3)
         cov["known_findings_hit"] = sorted(self.known_hits)
+        cov["known_findings_matches"] = dict(sorted(self.known_counts.items()))
         cov["engine_errors"] = self.engine_errors[:20]
         cov["tree_hash"] = tree_hash()
         if not cov["samples"]:
